@@ -159,15 +159,15 @@ def compare_results(ra, rb, rtol=1e-9, atol=1e-9, skip_cols=(), colmap=None, gas
         for c, va in a.items():
             if c in skip_cols or c not in b:
                 continue
-            if zero_flow and c in ("lambda", "reynolds"):
-                continue  # friction factor / Reynolds number of a branch without flow are round-off noise
+            if zero_flow and (c in ("lambda", "reynolds") or c.startswith("normfactor")):
+                # friction factor / Reynolds number of a branch without flow are round-off noise; such a branch has no
+                # inlet or outlet either, so the temperatures behind its norm factors are not defined by the flow
+                continue
             vb = b[c]
             if np.isnan(va) and np.isnan(vb):
                 continue
             rt = max(rtol, LAGGING_COLS.get(c, 0.0), GAS_VELOCITY_COLS.get(c, 0.0) if gas else 0.0)
             at = max(atol, 1e-7) if c in GAS_VELOCITY_COLS else atol
-            if zero_flow and c.startswith("normfactor"):
-                rt = max(rt, 1e-5)  # a branch without flow has no inlet: its end temperatures are defined up to tol_T only
             if np.isnan(va) != np.isnan(vb) or abs(va - vb) > at + rt * max(abs(va), abs(vb)):
                 diffs.append((eid, c, va, vb))
     return diffs
